@@ -1,11 +1,298 @@
-import Restli.Model.EndToEnd
-/-! # C02 — end-to-end call fidelity (property theorems; under construction) -/
-namespace Restli.E2E
+import Restli.Proofs.EndToEnd
+import Restli.Props.C05
+/-! # C02 — end-to-end call fidelity: generated client → HTTP → generated server and back
 
-/-- the regenerated constants the model is stated against are the protocol's -/
+Property theorems only (helper lemmas: `Proofs/EndToEnd.lean`). Model: `Model/EndToEnd.lean` — the
+generated client method, `formatQueryUrl`, `newRequest` with tunnelling, `DecodeTunnelledQuery`,
+`ServeHTTP`/`receive`, the registered closure with the generated decoders, the `Register*` adapters,
+the response half of `ServeHTTP`, the client's response handling. It *calls* the existing models
+(`Model/Routing`, `HttpUrl`, `Tunnel`, `Encode`/`Render*`, `Ror2Reader`, `TreeReader`, `Patch`) as
+they are, and the theorems below *apply* the other properties' theorems where they are proved:
+
+* routing (C05): `walk_some`, `locateAt_simple_nokey` and the routing model itself — applied;
+* tunnelling transparency (C14): `decode_sent`, `sent_plain`, `decode_no_override` — applied, with
+  C14's own hypotheses `TokenBoundary` / `BoundaryFresh` about Go's random boundary;
+* URL construction (C15): enters as the hypothesis `UrlLaw` (the request URL keeps context path +
+  resource path and the raw query), which `c15_url_preserved_partial` discharges under its guards —
+  among them `NoDotSegments`, the guard of finding C02-dot-segment-key below;
+* codec round trips (C01; C11 for patches): enter as the hypothesis that the closure's decoders,
+  run on the client's own key texts / parameter pairs / body bytes, return the caller's values
+  (`hcodec`); `decodeInvocation_client` splits it into one round trip per component;
+* cleanliness of what the writers emit (C01 `c01_escaped_is_clean`, C03
+  `c03_ror2_string_token_wellformed`): key texts contain no `/`, parameter texts no `&`, and both are
+  balanced in parentheses (`ValidateRor2Input`) — hypotheses `htexts`, `hpairs`.
+
+Findings of the current code that bound the full statement (each replayed on the real code by
+`bin/check C02`, see known-findings.jsonl): a path key that is a dot segment (`c02_dot_segment_key_cex`),
+a created id that is not a transparent HTTP header value (`c02_created_id_header_cex`). -/
+namespace Restli.E2E
+open Restli Restli.Codec
+open Restli.Routing (Method)
+
+/-! ## constants -/
+
+/-- The regenerated constants of the v2 module satisfy what the theorems assume about them: the
+tunnelling constants are good (C14), every method's `String()` maps back to it through
+`MethodNameMapping`, no method name is empty. Re-decided on every run. -/
+theorem c02_constants_ok_v2 : ConstsOk constsV2 where
+  good := Tunnel.good_of_B _ (by decide +kernel)
+  names := by
+    intro m hm
+    cases m <;> first | exact absurd rfl hm | decide +kernel
+  namesNe := by
+    intro m hm
+    cases m <;> first | exact absurd rfl hm | decide +kernel
+
+/-- the envelope member names and reserved parameter names are the protocol's -/
 theorem c02_constants_v2 :
     constsV2.fElements = sB "elements" ∧ constsV2.fEntities = sB "entities" ∧ constsV2.fValue = sB "value" ∧
+    constsV2.fResults = sB "results" ∧ constsV2.fStatuses = sB "statuses" ∧ constsV2.fErrors = sB "errors" ∧
+    constsV2.fId = sB "id" ∧ constsV2.fStatus = sB "status" ∧ constsV2.fPaging = sB "paging" ∧
+    constsV2.fMetadata = sB "metadata" ∧ constsV2.idHeader = sB "X-RestLi-Id" ∧
     constsV2.pIds = sB "ids" ∧ constsV2.pFinder = sB "q" ∧ constsV2.pAction = sB "action" := by
   decide +kernel
+
+/-! ## the query string -/
+
+/-- **What `ParseQueryParams` cuts out of the client's query is what `BuildQueryParams` joined** —
+the reserved parameters (`q`, `action`, `ids`), the user's parameters and the paging context alike,
+each name with exactly the text its writer produced, in ascending order of the names; for every list
+of pairs whose names are non-empty and free of `&`/`=` and whose texts are free of `&` (what the
+query-flavour writer emits: `&` and `=` are not in its safe table). No bound on any length. -/
+theorem c02_query_roundtrip (ps : List (Bytes × Bytes)) (h : ∀ e ∈ ps, PairClean e) :
+    parseQuery (joinQuery ps) = sortByKey ps :=
+  parseQuery_joinQuery ps h
+
+/-- …so each parameter the client wrote is found by `receive` under its own name with its own text,
+and a name the client did not write is absent (what method inference and the finder / action lookup
+read). -/
+theorem c02_query_lookup (ps : List (Bytes × Bytes)) (h : ∀ e ∈ ps, PairClean e)
+    (hn : ((sortByKey ps).map (·.1)).Nodup) :
+    (∀ k v, (k, v) ∈ ps → Routing.lookupLast (strOf k) (stringQuery (joinQuery ps)) = some (strOf v)) ∧
+    (∀ k, (∀ e ∈ ps, e.1 ≠ k) → Routing.lookupLast (strOf k) (stringQuery (joinQuery ps)) = none) :=
+  ⟨fun k v hm => lookup_client_pair ps h hn k v hm, fun k hk => lookup_client_absent ps h k hk⟩
+
+/-! ## the path -/
+
+/-- **The path of a call names its resource.** For every registered tree, every resource
+description whose segments lead to a node of it (collections and simple resources at any depth) and
+every list of key texts of the right length: the specification's `locate` on the call's path finds
+that node, with the description's resource path, exactly the key texts as entity keys (parents'
+first), and an own key exactly for entity-level methods. -/
+theorem c02_path_names_resource (roots : List Routing.Node) (onEntity : Bool) (segs : List SegSpec)
+    (node : Routing.Node) (ks : List String) (hnode : nodeFor roots segs = some node)
+    (hl : ks.length = (keyTys onEntity segs).length) :
+    Routing.Spec.locate roots (pathStrs onEntity segs ks) = some ⟨node, rpathOf segs, ks, hasKeyAt onEntity segs⟩ :=
+  locate_pathStrs roots onEntity segs node ks hnode hl
+
+/-! ## the call reaches exactly its method -/
+
+/-- **Routing picks the call's method, for every method kind.** On the request of a call — the verb
+of its kind, `X-RestLi-Method` naming it, the path of its resource with the key texts, the client's
+query — `ServeHTTP`/`receive` decide for the handler registered for that method on that resource
+(`KindOk`: registered, entity level consistent, reserved parameters as the client writes them), with
+the key texts as entity keys and the finder / action name of the call. -/
+theorem c02_routed_to_method (K : Consts) (hK : ConstsOk K) (roots : List Routing.Node) (r : ResSpec)
+    (node : Routing.Node) (hnode : nodeFor roots r.segs = some node)
+    (texts : List Bytes) (hlen : texts.length = (keyTys r.method.onEntity r.segs).length)
+    (htexts : ∀ t ∈ texts, Routing.validateRor2Input (strOf t) = true)
+    (q : Bytes) (hqv : ((stringQuery q).all fun kv => Routing.validateRor2Input kv.2) = true)
+    (hkind : KindOk K r node (stringQuery q)) :
+    Routing.route K.R Routing.validateRor2Input roots (clientRoutingReq K r texts q) = .routed (factsOf r texts) := by
+  have := routeX_client K hK roots r node hnode texts hlen htexts q hqv hkind
+  simp [Routing.route, this]
+
+/-- **Exactly one resource method runs, and it is the call's.** With the routing decision above and
+no filter in the way, the handler's event list has exactly one invocation, and every invocation in
+it carries the call's facts (C05's `c05_exactly_one`, instantiated). -/
+theorem c02_exactly_one (K : Consts) (hK : ConstsOk K) (roots : List Routing.Node) (r : ResSpec)
+    (node : Routing.Node) (hnode : nodeFor roots r.segs = some node)
+    (texts : List Bytes) (hlen : texts.length = (keyTys r.method.onEntity r.segs).length)
+    (htexts : ∀ t ∈ texts, Routing.validateRor2Input (strOf t) = true)
+    (q : Bytes) (hqv : ((stringQuery q).all fun kv => Routing.validateRor2Input kv.2) = true)
+    (hkind : KindOk K r node (stringQuery q)) (pfx : String) :
+    let out := Routing.serveSegs K.R Routing.validateRor2Input ⟨pfx, [], roots⟩ (clientRoutingReq K r texts q)
+    (out.events.map Routing.Event.tag).count Routing.Tag.inv = 1 ∧
+    ∀ f' s, Routing.Event.invoke f' s ∈ out.events → f' = factsOf r texts := by
+  have hx := routeX_client K hK roots r node hnode texts hlen htexts q hqv hkind
+  have hreach : Routing.reaches (factsOf r texts) (hasKeyAt r.method.onEntity r.segs)
+      (hasKeyAt r.method.onEntity r.segs) (clientRoutingReq K r texts q) = true := by
+    have : (clientRoutingReq K r texts q).decodes = Method.all := rfl
+    simp only [Routing.reaches, this]
+    cases hk : r.method.kind <;> simp [factsOf, hk, Method.all] <;> exact absurd hk hkind.known
+  constructor
+  · exact Routing.c05_exactly_one_served K.R Routing.validateRor2Input ⟨pfx, [], roots⟩ _ _ _ _ hx (by simp) hreach
+  · intro f' s hmem
+    have := (Routing.c05_exactly_one K.R Routing.validateRor2Input ⟨pfx, [], roots⟩ (clientRoutingReq K r texts q)).2 f' s hmem
+    simp only [Routing.route, hx] at this
+    cases this; rfl
+
+/-- the request URL keeps the context path followed by the resource path, and the raw query —
+what C15's `c15_url_preserved_partial` proves under its guards (no dot segment in the path, the
+context's root cut) -/
+structure UrlLaw (cfg : Cfg) (root rp : Bytes) (query : Option Bytes) (u : Url.URL) : Prop where
+  parsed : ∃ host, Url.parse (baseUrlText cfg) = .ok host ∧ HttpUrl.requestUrl host root rp query = .ok u
+  path : Url.escapedPath u = cfg.pfx ++ rp
+  rawQuery : u.rawQuery = query.getD []
+
+/-- **End-to-end, request direction.** For every registered resource shape, method kind, call, context
+path and tunnelling threshold: if the client marshals the call (key texts `texts`, parameter pairs
+`pairs`, body `bodyD`), then it puts a request on the wire, and the server — de-tunnelling, prefix,
+split, routing, the registered closure — invokes exactly the call's method with the result of running
+the generated decoders on the client's own key texts, sorted parameter pairs and body bytes. With the
+codec round trips of the call's values (`hcodec`; C01, C11) that result is the call: the resource
+sees the keys, parameters (paging included) and body the caller passed.
+Hypotheses beside the quantifier: cleanliness of the writers' output (C01/C03), `UrlLaw` (C15),
+the boundary hypotheses of C14, and that a body, when present, is not empty (a JSON document never is). -/
+theorem c02_call_reaches_method (K : Consts) (hK : ConstsOk K) (env : Env) (roots : List Routing.Node) (cfg : Cfg)
+    (r : ResSpec) (c : Call) (node : Routing.Node) (hnode : nodeFor roots r.segs = some node)
+    (texts : List Bytes) (ht : keyTexts K env (keyTys r.method.onEntity r.segs) c.keys = some texts)
+    (pairs : Option (List (Bytes × Bytes))) (hp : queryPairs K env r c = some pairs)
+    (bodyD : Option Doc) (hbd : bodyDoc K env r c = some bodyD)
+    (hnames : ∀ s ∈ r.segs, ∀ ch ∈ s.name, ch ≠ 47)
+    (htexts : ∀ t ∈ texts, (∀ ch ∈ t, ch ≠ 47) ∧ Routing.validateRor2Input (strOf t) = true)
+    (hpairs : ∀ e ∈ pairs.getD [], PairClean e ∧ Routing.validateRor2Input (strOf e.2) = true)
+    (hkind : KindOk K r node (stringQuery ((pairs.map joinQuery).getD [])))
+    (hpfx : (strOf cfg.pfx).toList.getLast? ≠ some '/')
+    (u : Url.URL) (hurl : UrlLaw cfg ((r.segs.head?.map (·.name)).getD [])
+      (joinPath (pathSegsB r.method.onEntity r.segs texts)) (pairs.map joinQuery) u)
+    (hb : Tunnel.TokenBoundary cfg.boundary)
+    (hfresh : TunnelSpec.BoundaryFresh cfg.boundary ((pairs.map joinQuery).getD []) ((bodyD.map renderJson).getD []))
+    (hbody : bodyD.map renderJson ≠ some [])
+    (i : Invocation)
+    (hcodec : (decodeKeys env (keyTys r.method.onEntity r.segs) texts).bind (fun keys =>
+        (decodeQuery K env r (sortByKey (pairs.getD []))).bind (fun qp =>
+          (decodeBody K env r qp.1 qp.2 ((bodyD.map renderJson).getD [])).bind (fun pb => .ok ⟨keys, pb.1, pb.2⟩))) = .ok i) :
+    ∃ a sent, clientEncode K env r c = some a ∧ wireRequest K cfg a = .ok sent ∧
+      serverSees K env roots cfg r sent = .invoked i := by
+  have hlen := keyTexts_length K env _ _ _ ht
+  have hqv : ((stringQuery ((pairs.map joinQuery).getD [])).all fun kv => Routing.validateRor2Input kv.2) = true := by
+    cases pairs with
+    | none => simp [stringQuery_nil]
+    | some ps =>
+      simp only [Option.map_some, Option.getD_some]
+      rw [stringQuery_joinQuery ps (fun e he => (hpairs e he).1)]
+      simp only [List.all_map, List.all_eq_true]
+      intro e he
+      exact (hpairs e ((mem_sortByKey ps e).1 he)).2
+  obtain ⟨sent, hsent, hsees⟩ := serverSees_delivered K hK env roots cfg r node hnode texts hlen hnames htexts
+    ((pairs.map joinQuery).getD []) hqv hkind hpfx u.forceQuery (bodyD.map renderJson) hb hfresh hbody
+  refine ⟨_, sent, clientEncode_eq K env r c texts pairs bodyD ht hp hbd, ?_, ?_⟩
+  · obtain ⟨host, hparse, hreq⟩ := hurl.parsed
+    simp only [wireRequest, hparse, ofUrlRes, hreq, hurl.path, hurl.rawQuery, hsent]
+  · rw [hsees, afterRouting, decodeInvocation_client K env r texts pairs (fun e he => (hpairs e he).1), hcodec]
+
+/-- **Whether query tunnelling is triggered makes no difference.** Two configurations that differ
+only in the tunnelling threshold: the server sees the same thing (both are what the closure makes of
+the untunnelled request — C14 applied on both sides). -/
+theorem c02_tunnelling_irrelevant (K : Consts) (hK : ConstsOk K) (env : Env) (roots : List Routing.Node) (cfg : Cfg)
+    (t1 t2 : Nat) (r : ResSpec) (node : Routing.Node) (hnode : nodeFor roots r.segs = some node)
+    (texts : List Bytes) (hlen : texts.length = (keyTys r.method.onEntity r.segs).length)
+    (hnames : ∀ s ∈ r.segs, ∀ ch ∈ s.name, ch ≠ 47)
+    (htexts : ∀ t ∈ texts, (∀ ch ∈ t, ch ≠ 47) ∧ Routing.validateRor2Input (strOf t) = true)
+    (q : Bytes) (hqv : ((stringQuery q).all fun kv => Routing.validateRor2Input kv.2) = true)
+    (hkind : KindOk K r node (stringQuery q))
+    (hpfx : (strOf cfg.pfx).toList.getLast? ≠ some '/') (fq : Bool) (body : Option Bytes)
+    (hb : Tunnel.TokenBoundary cfg.boundary) (hfresh : TunnelSpec.BoundaryFresh cfg.boundary q (body.getD []))
+    (hbody : body ≠ some []) :
+    ∃ s1 s2,
+      Tunnel.sentRequest K.T cfg.boundary t1 (cfg.pfx ++ joinPath (pathSegsB r.method.onEntity r.segs texts)) fq q
+        (verbBytes r.method.kind) (sB (methodName K.R r.method.kind)) body = .ok s1 ∧
+      Tunnel.sentRequest K.T cfg.boundary t2 (cfg.pfx ++ joinPath (pathSegsB r.method.onEntity r.segs texts)) fq q
+        (verbBytes r.method.kind) (sB (methodName K.R r.method.kind)) body = .ok s2 ∧
+      serverSees K env roots { cfg with threshold := t1 } r s1 = serverSees K env roots { cfg with threshold := t2 } r s2 := by
+  obtain ⟨s1, h1, e1⟩ := serverSees_delivered K hK env roots { cfg with threshold := t1 } r node hnode texts hlen hnames
+    htexts q hqv hkind hpfx fq body hb hfresh hbody
+  obtain ⟨s2, h2, e2⟩ := serverSees_delivered K hK env roots { cfg with threshold := t2 } r node hnode texts hlen hnames
+    htexts q hqv hkind hpfx fq body hb hfresh hbody
+  exact ⟨s1, s2, h1, h2, by rw [e1, e2]⟩
+
+end Restli.E2E
+
+/-! ## a concrete world: witnesses and non-vacuity -/
+namespace Restli.E2E.Witness
+open Restli Restli.Codec Restli.E2E
+open Restli.Routing (Method)
+
+/-- entity `Inner { id: int, name: optional string }` -/
+def env : Env := [("Inner", .record [] [⟨sB "id", .prim .i32, false, none⟩, ⟨sB "name", .prim .str, true, none⟩])]
+
+/-- a string-keyed collection `coll` (get, delete, create, batch_get, finder `byName`, entity action `poke`)
+with a simple sub-resource `detail` (get, delete) -/
+def server : Routing.Server :=
+  Routing.registerAll (Routing.newServer constsV2.R [])
+    [([("coll", true)], .method .get), ([("coll", true)], .method .delete), ([("coll", true)], .method .create),
+     ([("coll", true)], .method .batch_get), ([("coll", true)], .finder "byName"), ([("coll", true)], .action "poke" true),
+     ([("coll", true), ("detail", false)], .method .get), ([("coll", true), ("detail", false)], .method .delete)]
+
+def roots : List Routing.Node := server.handler.roots
+
+def collSegs : List SegSpec := [⟨sB "coll", some (.prim .str)⟩]
+def detailSegs : List SegSpec := [⟨sB "coll", some (.prim .str)⟩, ⟨sB "detail", none⟩]
+
+def collGet : ResSpec := ⟨collSegs, some "Inner", ⟨.get, [], true, none, none, none, false⟩⟩
+def detailGet : ResSpec := ⟨detailSegs, some "Inner", ⟨.get, [], false, none, none, none, false⟩⟩
+def detailDelete : ResSpec := ⟨detailSegs, some "Inner", ⟨.delete, [], false, none, none, none, false⟩⟩
+
+def boundary : Bytes := sB "0123456789abcdef0123456789abcdef0123456789abcdef0123456789ab"
+def plainCfg : Cfg := ⟨0, [], boundary⟩
+def ctxCfg (t : Nat) : Cfg := ⟨t, sB "/ctx/api%20v1", boundary⟩
+
+/-- the path keys a `Seen` was invoked with, as path texts (bytes compare; values do not) -/
+def seenKeys (tys : List Ty) : Seen → Option (List Bytes)
+  | .invoked i => keyTexts constsV2 env tys i.keys
+  | _ => none
+
+def isOther : Seen → Option (Method × List String)
+  | .other f => some (f.method, f.keys)
+  | _ => none
+
+end Restli.E2E.Witness
+
+namespace Restli.E2E
+open Witness
+
+/-- the full-strength request-direction statement for one method of the witness world: whatever the
+key, `detail.get(key)` below `coll` invokes `detail.get` with that key. FALSE today. -/
+def DetailGetReaches : Prop :=
+  ∀ key : Bytes, seenKeys [.prim .str] (callSeen constsV2 env roots plainCfg detailGet ⟨[.str key], none, .none⟩) =
+    keyTexts constsV2 env [.prim .str] [.str key]
+
+/-- **Finding C02-dot-segment-key** (DESIGN F13; the guard is `UrlLaw`, i.e. C15's `NoDotSegments`):
+`detail.get(key = ".")` is sent to `/coll/detail` — `url.ResolveReference` removes the dot segment —
+and the server invokes ANOTHER method, `coll.get`, with the key `detail`. -/
+theorem c02_dot_segment_key_cex : ¬ DetailGetReaches := by
+  intro h
+  have := h [46]
+  revert this
+  decide +kernel
+
+/-- … precisely: `coll.get("detail")` runs instead of `detail.get(".")`, and with `delete` it is
+`coll.delete("detail")` -/
+theorem c02_dot_segment_key_other_method :
+    isOther (callSeen constsV2 env roots plainCfg detailGet ⟨[.str [46]], none, .none⟩) = some (.get, ["detail"]) ∧
+    isOther (callSeen constsV2 env roots plainCfg detailDelete ⟨[.str [46]], none, .none⟩) = some (.delete, ["detail"]) := by
+  decide +kernel
+
+/-! non-vacuity of the request-direction theorems: a key full of reserved characters, a context path,
+tunnelling on and off -/
+
+/-- `coll.get("a/b (c):'d',%41 é+")` reaches `coll.get` with exactly that key: untunnelled, tunnelled,
+under a context path -/
+example :
+    let key : Bytes := sB "a/b (c):'d',%41 é+"
+    seenKeys [.prim .str] (callSeen constsV2 env roots plainCfg collGet ⟨[.str key], none, .none⟩) =
+      keyTexts constsV2 env [.prim .str] [.str key] ∧
+    seenKeys [.prim .str] (callSeen constsV2 env roots (ctxCfg 0) collGet ⟨[.str key], none, .none⟩) =
+      keyTexts constsV2 env [.prim .str] [.str key] ∧
+    seenKeys [.prim .str] (callSeen constsV2 env roots (ctxCfg 1) detailGet ⟨[.str key], none, .none⟩) =
+      keyTexts constsV2 env [.prim .str] [.str key] := by
+  decide +kernel
+
+/-- the empty key travels as `''` -/
+example : seenKeys [.prim .str] (callSeen constsV2 env roots plainCfg collGet ⟨[.str []], none, .none⟩) =
+    some [[39, 39]] := by decide +kernel
+
+example : nodeFor roots detailSegs = some (.mk "detail" false [.get, .delete] [] [] []) := by decide +kernel
 
 end Restli.E2E
